@@ -92,9 +92,18 @@ Theorem C06_generated_diag_and_submatrix : forall v k ib ie,
 Proof. intros v k ib ie. exact (conj (gen_diag_vector_eq v k) (gen_submatrix_on_diagonal_eq v ib ie)). Qed.
 Print Assumptions C06_generated_diag_and_submatrix.
 
+(* T() of a matrix (link, then the straight-line swap of in_place_transpose run symbolically) and reshape(dims) of a
+   vector (stride of the last new dimension, recurrence for the others) as read from Array.h are the model's *)
+Theorem C06_generated_transpose_and_reshape : forall v nd,
+  gen_transpose v = transpose v /\ gen_reshape v nd = reshape v nd.
+Proof. intros v nd. exact (conj (gen_transpose_eq v) (gen_reshape_eq v nd)). Qed.
+Print Assumptions C06_generated_transpose_and_reshape.
+
 (* non-vacuity: A(end-1, stride(end,0,-2)) of a 3 x 5 row-major matrix at offset 100 *)
 Example C06_example_generated_slice :
   gen_slice (mkView 100 [3;5] [5;1]) [IS (IEnd (-1)); IR (IEnd 0) (IAbs 0) (-2)] = mkView 109 [3] [-2] /\
   gen_diag_vector (mkView 7 [4;4] [4;1]) (-1) = mkView 11 [3] [5] /\
-  gen_submatrix_on_diagonal (mkView 7 [4;4] [4;1]) 1 2 = mkView 12 [2;2] [4;1].
+  gen_submatrix_on_diagonal (mkView 7 [4;4] [4;1]) 1 2 = mkView 12 [2;2] [4;1] /\
+  gen_transpose (mkView 7 [2;3] [3;1]) = mkView 7 [3;2] [1;3] /\
+  gen_reshape (mkView 5 [12] [-2]) [2;3;2] = mkView 5 [2;3;2] [-12;-4;-2].
 Proof. vm_compute. repeat split. Qed.
